@@ -113,6 +113,15 @@ impl Property for Total {
                     )
                 }
                 Ok(Ok(c)) => {
+                    // a cursor index past the last word points at no word: there is nothing to complete
+                    ensure!(
+                        index < argv.len() || c.is_empty(),
+                        "engine:candidates-for-an-index-past-the-line",
+                        "cursor index {index} of a line of {} words {:?}: candidates {:?}",
+                        argv.len(),
+                        argv.iter().map(|a| show_bytes(a)).collect::<Vec<_>>(),
+                        c.iter().map(|x| &x.0).collect::<Vec<_>>()
+                    );
                     if !c.is_empty() {
                         some_candidates = true;
                     }
